@@ -46,6 +46,19 @@ inline bool Representable(const string& n) {
   if (n.find("\\:") != string::npos) return false;
   return true;
 }
+// A name that ends in an even, non-zero number of backslashes can be carried as a dependency that is followed by a
+// blank on the same line ("2N backslashes + space" reads as 2N backslashes, end of name); not at the end of a line
+// (backslash-newline is a continuation), not as a target (`\:` is an escaped colon), not before a ':' of its own rule.
+inline bool EvenTrailingBackslashes(const string& n) {
+  size_t k = 0; while (k < n.size() && n[n.size() - 1 - k] == '\\') k++;
+  return k > 0 && k % 2 == 0;
+}
+inline bool RepresentableMidLine(const string& n) {
+  if (Representable(n)) return true;
+  if (n.empty() || !EvenTrailingBackslashes(n)) return false;
+  for (unsigned char c : n) if (c == 0 || c == '\r' || c == '\n') return false;
+  return n.find("\\:") == string::npos;
+}
 // D11 (known finding): bytes outside the scanner's plain-text class end a file name; "\$" swallows the first '$' of "$$"
 inline bool InD11Class(const string& n) {
   for (size_t i = 0; i < n.size(); i++) {
@@ -105,6 +118,12 @@ inline string CheckRejections(const string& a, const string& b) {
   // a dependency reappears as a target that has its own dependencies
   if (a != b) { string t = "out.o: " + GccMunge(a) + "\n" + EscapeColons(GccMunge(a)) + ": " + GccMunge(b) + "\n"; DepfileParser p((DepfileParserOptions())); string e;
     if (p.Parse(&t, &e)) return "dependency with its own dependencies accepted: <" + t + ">"; }
+  // ... also when it is one of several targets of that rule, before or after a target not seen so far
+  if (a != b) for (int order = 0; order < 2; order++) {
+    string ta = EscapeColons(GccMunge(a));
+    string t = "out.o: " + GccMunge(a) + " first.h\n" + (order ? "unseen.o " + ta : ta + " unseen.o") + ": " + GccMunge(b) + "\n";
+    DepfileParser p((DepfileParserOptions())); string e;
+    if (p.Parse(&t, &e)) return "dependency with its own dependencies accepted among several targets: <" + t + ">"; }
   return "";
 }
 }  // namespace c15
